@@ -1,3 +1,4 @@
+import PytezosModel.Generated.C01Bodies
 import PytezosModel.Proofs.InterpTables
 import PytezosModel.Proofs.InterpRefine
 import PytezosModel.Proofs.InterpGuard
@@ -51,8 +52,8 @@ is the one the mirror `Impl` was written from (translator/c01.py, `SHAPES`) -/
 theorem source_bodies_recognised : Generated.C01.bodyRecognised.all (·.2) = true := by decide
 
 /-- the digest list covers all 86 instruction forms -/
-theorem source_bodies_cover_all_forms : Generated.C01.modelledForms = 86 ∧ 86 ≤ Generated.C01.bodyRecognised.length :=
-  Interp.bodyRecognised_covers
+theorem source_bodies_cover_all_forms : Generated.C01.modelledForms = 86 ∧ 86 ≤ Generated.C01.bodyRecognised.length := by
+  decide
 
 /-- the `dispatch_types` tables read from arithmetic.py are the reference tables -/
 theorem arithmetic_tables_eq_reference :
